@@ -429,4 +429,7 @@ def disjoint_shards(tier, props, known):
     for n in range(0, 5 if tier == "quick" else 6):
         out.append(("make_disjoint_list", "disjoint-list-%d" % n, dict(n=n, **kw)))
     out.append(("make_disjoint_dict", "disjoint-dict", dict(**kw)))
+    # keys that look like integers next to ordinary ones (years, counters as
+    # metadata keys): paths are sorted with such keys treated as numbers
+    out.append(("make_disjoint_dict", "disjoint-dict-intkeys", dict(keys=("a", "1", "2019"), **kw)))
     return out
